@@ -11,7 +11,7 @@
       clear_to_send_lock.release()
 
   `recheck = false` is the variant that trusts the result of `wait()` and does not test the event again under the
-  lock.  Threads interleave arbitrarily; a thread that cannot move (lock taken, event not set) stutters.
+  lock; `klock = false` the variant whose `_send_kex_init` clears the event without taking the lock.  Threads interleave arbitrarily; a thread that cannot move (lock taken, event not set) stutters.
   Mathlib-free, executable.
 -/
 namespace PV.SendGate
@@ -38,6 +38,7 @@ structure Ctrl where
 
 structure St where
   recheck : Bool
+  klock : Bool := true        -- the side that starts the exchange clears the event under clear_to_send_lock
   c : Ctrl := {}
   todo : Nat                  -- user messages still to send (CHANNEL_DATA, type 94)
   wire : List Nat := []
@@ -54,12 +55,15 @@ def cuser (recheck more : Bool) (c : Ctrl) : Ctrl :=
   | .sent => { c with lock := .free, upc := if more then .wait else .done }
   | .done => c
 
-/-- kex side, control only -/
-def ckex (c : Ctrl) : Ctrl :=
+/-- kex side, control only.  `klock = false`: `_send_kex_init` clears the event with a bare `clear()`, without taking
+`clear_to_send_lock` (the setting side at NEWKEYS still locks). -/
+def ckex (klock : Bool) (c : Ctrl) : Ctrl :=
   match c.kpc with
-  | .idle => if c.lock = .free then { c with lock := .kex, kpc := .haveLock } else c
+  | .idle =>
+    if klock then (if c.lock = .free then { c with lock := .kex, kpc := .haveLock } else c)
+    else { c with kpc := .haveLock }
   | .haveLock => { c with event := false, kpc := .cleared }
-  | .cleared => { c with lock := .free, kpc := .released }
+  | .cleared => if klock then { c with lock := .free, kpc := .released } else { c with kpc := .released }
   | .released => { c with kpc := .sentKexinit }
   | .sentKexinit => { c with kpc := .sentKex }
   | .sentKex => { c with kpc := .sentNewkeys }
@@ -83,12 +87,12 @@ def step (s : St) (t : Tid) : St :=
   | .user =>
     { s with c := cuser s.recheck (decide (s.todo > 1)) s.c, wire := s.wire ++ written s .user,
              todo := if s.c.upc = .sent then s.todo - 1 else s.todo }
-  | .kex => { s with c := ckex s.c, wire := s.wire ++ written s .kex }
+  | .kex => { s with c := ckex s.klock s.c, wire := s.wire ++ written s .kex }
 
 def run (s : St) (sched : List Tid) : St := sched.foldl step s
 
-def init (recheck : Bool) (n : Nat) : St :=
-  { recheck, todo := n, c := { upc := if n = 0 then .done else .wait } }
+def init (recheck : Bool) (n : Nat) (klock : Bool := true) : St :=
+  { recheck, klock, todo := n, c := { upc := if n = 0 then .done else .wait } }
 
 /-- the kex messages of the exchange written so far -/
 def kexPart : KPc → List Nat
